@@ -10,6 +10,7 @@
 #include <givaro/modular-extended.h>
 #include <givaro/montgomery.h>
 #include <givaro/gfq.h>
+#include <givaro/gfqext.h>
 #include <givaro/extension.h>
 #include <givaro/qfield.h>
 #include <givaro/givpoly1.h>
@@ -113,6 +114,18 @@ std::string probe_gfq(const D& F) {
     F.init(r, hi); F.write(os, r) << ' ';
     std::vector<typename D::Element> eq(size_t(F.exponent()) + 1, 0); eq.back() = 1; eq[0] = 1;   // X^k + 1
     F.init(r, eq); F.write(os, r);
+    return os.str();
+}
+
+// GFqExtFast: the table-field probe plus the q-adic initialisation from a double (uses _pceil / _MODOUT and the three double tables,
+// members of the derived class that its hand-written operator= has to copy as well)
+template <class D>
+std::string probe_gfqx(const D& F) {
+    std::ostringstream os;
+    os << probe_gfq<D>(F) << " |";
+    typename D::Element r;
+    for (int d = 0; d <= 40; d += (d < 8 ? 1 : 7)) { F.init(r, double(d)); os << ' ' << (long long)r; }
+    os << ' ' << F.bits() << ' ' << F.base() << ' ' << F.mask();
     return os.str();
 }
 
@@ -226,6 +239,7 @@ struct BoxT : Box {
 template <class D> using RingBox = BoxT<D, probe_ring<D>, xprobe_ring<D>>;
 template <class D> using GFqBox = BoxT<D, probe_gfq<D>, xprobe_ring<D>>;
 template <class D> using ExtBox = BoxT<D, probe_ext<D>, xprobe_ring<D>>;
+template <class D> using GFqxBox = BoxT<D, probe_gfqx<D>, xprobe_ring<D>>;
 // QField<Rational> has const data members and therefore no assignment operator: "assignment" is replacement by a copy-constructed
 // object, which is all user code can do
 template <class D>
@@ -431,6 +445,13 @@ inline const std::map<std::string, Maker>& kinds() {
             return i ? new GFqBox<F>(3u, 4u, V{2, 1, 0, 0, 1}) : new GFqBox<F>(5u, 2u, V{2, 0, 1}); }},
         {"GFqDom_int64", [](int i) -> Box* { typedef GFqDom<int64_t> F; typedef std::vector<F::Residu_t> V;
             return i ? new GFqBox<F>(2u, 8u, V{1, 1, 0, 1, 1, 0, 0, 0, 1}) : new GFqBox<F>(7u, 2u, V{1, 0, 1}); }},
+        // same characteristic, same degree, same table sizes -- different modulus polynomial: an assignment that keeps "what is already
+        // the right size" keeps the wrong tables (X^3+2X^2+1 and X^3+X^2+2 over GF(3))
+        {"GFqDom_int32_samepk", [](int i) -> Box* { typedef GFqDom<int32_t> F; typedef std::vector<F::Residu_t> V;
+            return i ? new GFqBox<F>(3u, 3u, V{2, 0, 1, 1}) : new GFqBox<F>(3u, 3u, V{1, 0, 2, 1}); }},
+        // the q-adic variant of the table field (derived class with its own tables and a hand-written assignment operator)
+        {"GFqExtFast_int64", [](int i) -> Box* { typedef GFqExtFast<int64_t> F; typedef std::vector<F::Residu_t> V;
+            return i ? new GFqxBox<F>(3u, 4u, V{2, 1, 0, 0, 1}) : new GFqxBox<F>(5u, 2u, V{2, 0, 1}); }},
         {"Extension_GFq", [](int i) -> Box* { typedef GFqDom<int32_t> B; typedef Extension<B> E; typedef Poly1Dom<B, Dense> P;
             B base(i ? 3 : 5, 1); P pd(base, Indeter("Y")); P::Element irr; B::Element e;
             const int c5[] = {2, 0, 1}, c3[] = {2, 1, 0, 0, 1};
